@@ -67,6 +67,25 @@ impl CKBProtocolHandler for SyncProtocol {
         );
         match message {
             packed::SyncMessageUnionReader::SendBlock(reader) => {
+                // Only the fields of the old version are verified so far; the extension is an
+                // extra field, and reading a malformed one panics.
+                let is_malformed = match reader.block().count_extra_fields() {
+                    0 => false,
+                    1 => packed::BlockV1Reader::from_slice(reader.block().as_slice()).is_err(),
+                    _ => true,
+                };
+                if is_malformed {
+                    warn!(
+                        "SyncProtocol.received a malformed block from Peer({})",
+                        peer
+                    );
+                    nc.ban_peer(
+                        peer,
+                        BAD_MESSAGE_BAN_TIME,
+                        String::from("send us a malformed message"),
+                    );
+                    return;
+                }
                 let new_block = reader.to_entity().block();
                 // Only the header of a matched block is proved, so the body has to be checked
                 // against the header before it is filtered.
